@@ -554,3 +554,33 @@ theorem drain_all {tbl : List (α × α)} {locked : Bool} (s : St α) (ht : s.tx
 
 end
 end Frappy.Client.Match
+
+namespace Frappy.Client.Match
+section
+variable {α : Type} [DecidableEq α]
+open Frappy.Spec.C11
+
+theorem noSpur_step {tbl : List (α × α)} {locked : Bool} {s s' : St α} {l : Label α}
+    (h : step tbl locked s l = some s') (q : NoSpuriousRelease s) : NoSpuriousRelease s' := by
+  unfold step at h
+  split at h
+  · next hen =>
+    cases h
+    unfold NoSpuriousRelease at q ⊢
+    cases l <;> simp only [stepF, enabled] at hen ⊢
+    all_goals first
+      | exact q
+      | (intro hc; simp_all; done)
+      | (split <;> first | exact q | (intro hc; simp_all; done))
+      | (split <;> (try simp only [txApplyF, rxMatchF, rxCleanupF, takeParked, rxDeliver]) <;>
+          (repeat' split) <;> first | exact q | (intro hc; simp_all; done))
+  · cases h
+
+theorem reachable_noSpur {tbl : List (α × α)} {locked : Bool} {s : St α} (h : Reachable tbl locked s) :
+    NoSpuriousRelease s := by
+  induction h with
+  | init => intro _; exact ⟨rfl, rfl⟩
+  | step l _ hs ih => exact noSpur_step hs ih
+
+end
+end Frappy.Client.Match
